@@ -220,6 +220,10 @@ func (p *Policy) sanitize(r io.Reader, w io.Writer) error {
 		closingTagToSkipStack    []string
 		closingTagToSkipCount    = map[string]int{}
 		mostRecentlyStartedToken string
+		// whether the start tag recorded in mostRecentlyStartedToken was
+		// written: the text of a script or style element is only written
+		// raw (AllowUnsafe) when the element itself is in the output
+		mostRecentlyStartedTokenWritten bool
 		// name of a void element whose start tag was removed for lack of
 		// attributes by the previous token, so that a closing tag written
 		// straight after it (<img></img>) is removed with it
@@ -267,6 +271,7 @@ func (p *Policy) sanitize(r io.Reader, w io.Writer) error {
 		case html.StartTagToken:
 
 			mostRecentlyStartedToken = normaliseElementName(token.Data)
+			mostRecentlyStartedTokenWritten = false
 
 			switch normaliseElementName(token.Data) {
 			case `script`:
@@ -332,6 +337,7 @@ func (p *Policy) sanitize(r io.Reader, w io.Writer) error {
 				if _, err := buff.WriteString(token.String()); err != nil {
 					return err
 				}
+				mostRecentlyStartedTokenWritten = true
 			}
 
 		case html.EndTagToken:
@@ -410,11 +416,13 @@ func (p *Policy) sanitize(r io.Reader, w io.Writer) error {
 				// the tokenizer reads what follows as the raw text of the
 				// element regardless of the self-closing syntax
 				mostRecentlyStartedToken = `script`
+				mostRecentlyStartedTokenWritten = false
 				if !p.allowUnsafe {
 					continue
 				}
 			case `style`:
 				mostRecentlyStartedToken = `style`
+				mostRecentlyStartedTokenWritten = false
 				if !p.allowUnsafe {
 					continue
 				}
@@ -450,6 +458,10 @@ func (p *Policy) sanitize(r io.Reader, w io.Writer) error {
 				if _, err := buff.WriteString(token.String()); err != nil {
 					return err
 				}
+				switch normaliseElementName(token.Data) {
+				case `script`, `style`:
+					mostRecentlyStartedTokenWritten = true
+				}
 			}
 
 		case html.TextToken:
@@ -461,8 +473,16 @@ func (p *Policy) sanitize(r io.Reader, w io.Writer) error {
 					// should not HTML escape it as that would break the output
 					//
 					// requires p.AllowUnsafe()
+					//
+					// when the element itself is not in the output (not
+					// allowed, or allowed only with attributes) its text
+					// would be read as markup, and is escaped like any other
 					if p.allowUnsafe {
-						if _, err := buff.WriteString(token.Data); err != nil {
+						text := token.String()
+						if mostRecentlyStartedTokenWritten {
+							text = token.Data
+						}
+						if _, err := buff.WriteString(text); err != nil {
 							return err
 						}
 					}
@@ -471,8 +491,16 @@ func (p *Policy) sanitize(r io.Reader, w io.Writer) error {
 					// should not HTML escape it as that would break the output
 					//
 					// requires p.AllowUnsafe()
+					//
+					// when the element itself is not in the output (not
+					// allowed, or allowed only with attributes) its text
+					// would be read as markup, and is escaped like any other
 					if p.allowUnsafe {
-						if _, err := buff.WriteString(token.Data); err != nil {
+						text := token.String()
+						if mostRecentlyStartedTokenWritten {
+							text = token.Data
+						}
+						if _, err := buff.WriteString(text); err != nil {
 							return err
 						}
 					}
